@@ -13,7 +13,7 @@ use crate::report::{Replay, Run, Violation};
 use crate::subject::*;
 use crate::util::{show, Buf, Rd, J};
 use abyssiniandb::filedb::{CheckFileDbMap, FileDbMap};
-use abyssiniandb::{DbMap, DbMapKeyType, DbXxx, DbXxxBase};
+use abyssiniandb::{DbMap, DbXxx, DbXxxBase};
 use std::collections::{BTreeMap, HashMap};
 use std::path::PathBuf;
 
@@ -1004,6 +1004,8 @@ pub struct Start {
 pub struct Caps {
     pub max_states: usize,
     pub max_secs: f64,
+    /// every state is expanded by a freshly spawned process (C02: "re-open in a new process")
+    pub fresh_process: bool,
 }
 
 pub struct BfsStats {
@@ -1136,7 +1138,36 @@ pub fn bfs(cfg: &ACfg, starts: &[Start], caps: &Caps, pool: &mut Pool, run: &mut
                 break;
             }
             let jobs: Vec<Vec<u8>> = chunk.iter().map(|(id, packed)| make_expand_job(packed, &states[*id as usize].code, u32::MAX, 1 | 4, &[])).collect();
-            let mut results = pool.map(&jobs, |i| i);
+            let mut results = if caps.fresh_process {
+                let spec = pool.spec();
+                let nthreads = pool.size();
+                let mut out: Vec<Option<JobResult>> = vec![None; jobs.len()];
+                std::thread::scope(|sc| {
+                    let mut hs = Vec::new();
+                    for t in 0..nthreads {
+                        let spec = &spec;
+                        let jobs = &jobs;
+                        hs.push(sc.spawn(move || {
+                            let mut v = Vec::new();
+                            for (i, j) in jobs.iter().enumerate() {
+                                if i % nthreads == t {
+                                    v.push((i, crate::pool::run_isolated_spec(spec, j)));
+                                }
+                            }
+                            v
+                        }));
+                    }
+                    for h in hs {
+                        for (i, r) in h.join().expect("thread") {
+                            out[i] = Some(r);
+                        }
+                    }
+                });
+                run.add("state_expansions_in_a_freshly_spawned_process", jobs.len() as i64);
+                out.into_iter().map(|r| r.expect("job")).collect()
+            } else {
+                pool.map(&jobs, |i| i)
+            };
             // crashed jobs: confirm in isolation (once per kind of failure); the search stops after this level
             for (i, res) in results.iter_mut().enumerate() {
                 if let JobResult::Crashed { progress, how } = res.clone() {
